@@ -291,7 +291,18 @@ def r5(ctx):
         fn = pdb.fn(conv)
         ctx.touch(fn)
         ss = [i for i in fn.all_insts() if i.op == "store" and vf.store_field(i) == fld]
-        ctx.floor("C03.R5", len(ss), 1)
+        # every record the converter hands out names its cache: the source field is written on every path (both address families)
+        outs_c = []
+        tix = [k for k, p_ in enumerate(fn.params) if p_["name"] == "type"]
+        for tval in ((4, 6) if "prefix" in conv else (9,)):      # the PDU types the converter is called for (asserted at its top)
+            o_, _f = es.count_effects(fn, pdb, lambda i, E, st_, fld=fld: (["source"] if i.op == "store" and vf.store_field(i) == fld else None), None,
+                                      cell=({tix[0]: tval} if tix else None))
+            outs_c += o_
+        unowned = [o for o in outs_c if not o["counts"].get("source")]
+        n += 1
+        ctx.check(bool(outs_c) and not unowned, "C03.R5", "%s:source-set-on-every-path" % conv, (unowned[0]["inst"].loc() if unowned else "%s:%d" % (fn.relfile, fn.line)),
+                  "a path returns a record whose source was never set: purge, reload copy and removal by source cannot attribute it" if unowned or not outs_c else
+                  "%d return paths, each writes record.socket" % len(outs_c), key="C03.R5:%s:always" % conv, path=(flow.trace_lines(fn, unowned[0]["trace"]) if unowned else None))
         for s in ss:
             n += 1
             ctx.check(vf.expr(fn, s["val"]) == ("arg", 0), "C03.R5", "%s:socket-field" % conv, s.loc(),
@@ -470,6 +481,10 @@ def check(ctx):
                                 "response cannot withdraw or collide with another cache's keys")}):
         C04.r5(ctx, retsets)
         C10.r1(ctx)
+    from specs import C06
+    with ctx.shared({"C06.R2": ("C03.R12", "a completed reload replaces the cache's old set entirely: the swap exchanges every piece of root state of both "
+                                "tables on every path (an address family that is empty in the new set ends up empty)")}):
+        C06.r2(ctx)
     ctx.not_decided("that the table contents equal previous + announcements - withdrawals (C02's set semantics composed with R1-R5)")
     ctx.not_decided("cancellation of the worker thread in the middle of the receive loop (covered by rtr_stop's purge, C07.R4)")
 
